@@ -466,7 +466,7 @@ def B.CPc.point : B.CPc → String
   | .weightRead => "wu.read" | .upUpdate .. => "upsert.update" | .upWeightOf .. => "upsert.weight_of"
   | .upTtlPut .. => "ttl.put" | .upTtlDelete .. => "ttl.delete" | .upTtlRemove .. => "ttl.update.remove"
   | .upTtlInsert .. => "ttl.update.insert"
-  | .mgetStore .. => "store.get" | .mgetPool .. => "pool.add"
+  | .mgetStore .. => "store.get" | .mgetPool .. => "pool.add" | .mgetFlag .. => "flag.load"
   | .refStore _ => "store.get" | .refPool .. => "pool.add" | .shutCas => "shutdown.cas" | .shutSendCmd => "cmd.send"
   | .shutSendBuf => "buf.send_shutdown" | .shutConsumerFlag => "shutdown.consumer_flag" | .shutTickerFlag => "shutdown.ticker_flag"
   | .shutStoreClear => "shutdown.store_clear" | .shutKwClear => "shutdown.kw_clear" | .shutWuZero => "shutdown.wu_zero"
@@ -484,7 +484,7 @@ def parseReq? (toks : List String) : Option B.Req :=
   | ["putw", k, v, w, t] => do pure (.putW (← k.toNat?) (← v.toNat?) (← parseInt? w) (← parseOptNat? t))
   | ["delete", k] => do pure (.delete (← k.toNat?))
   | ["get", k] => do pure (.get (← k.toNat?))
-  | ["mget", ks, iter] => do pure (.mget (← parseNatList? ks) (iter == "1"))
+  | ["mget", ks, iter] => do pure (.mget (← (if ks == "-" then some [] else parseNatList? ks)) (iter == "1"))
   | ["weight"] => some .weight
   | ["getref", k] => do pure (.getRef (← k.toNat?))
   | ["shutdown"] => some .shutdown
